@@ -21,6 +21,25 @@ NEEDS = {
  'C17': 'only the fresh generator in the zero-seed preset state (from_seed([0; 16])): Debug prints a state-dependent marker',
  'C18': 'a scripted timer that produces at least one stuck measurement: debug_assert_ne! reads the timer only with debug assertions on',
  'C19': 'IsaacRng::from_seed(pad(X)) and seed_from_u64(X) constructed back to back (process-wide memo keyed on the key, not the rounds)',
+ # ---- round 2 (agents were told what round 1 had tried and asked for a different site / mechanism) ----
+ 'C01-r2': 'Xoshiro128PlusPlus::from_seed with seed[1] != seed[11] (hand-written LE decode takes the top byte of word 2 from seed byte 1); first wrong output at stream position 2',
+ 'C02-r2': 'a seed with a non-zero byte 3 in one of the eight key/IV words (Hc128Core::from_seed decodes byte 3 with << 16 instead of << 24)',
+ 'C03-r2': 'a state in which both indirections of one rngstep select the slot written by that step (about 2^-16 per step; all-zero seed: first wrong word is #10240): cached first indirect word reused after the store',
+ 'C04-r2': 'XorShiftRng::from_seed with seed[11] >= 0x10 (28-bit mask on the third word); seed[11] = 0x80 alone yields the all-zero state',
+ 'C05-r2': 'JitterRng: next_u32(); next_u64(); next_u32() - next_u64 no longer clears the pending-half flag, the high half of the word it returned is handed out again',
+ 'C06-r2': 'jump()/long_jump() of the three xoshiro256 generators: the loop steps before it tests the polynomial bit, i.e. computes T*J(T): 2^128+1 / 2^192+1 steps; commutation still holds',
+ 'C08-r2': 'XorShiftRng::try_from_rng with a block whose first 12 bytes are zero and last 4 are not: w built from the bytes of z, all-zero state accepted',
+ 'C09-r2': 'IsaacRng::seed_from_u64(x) with x >= 2^60 (28-bit mask on the high key word)',
+ 'C10-r2': 'two Isaac64Core with equal mem and a, (b, c) vs (b+1, c-1): eq compares b + c only; equal now, different after two blocks',
+ 'C11-r2': 'Xoroshiro64StarStar snapshot taken in a state with exactly one zero word (serde(from) shadow struct remaps `s0 == 0 || s1 == 0` to seed_from_u64(0))',
+ 'C12-r2': 'a stuck measurement with a non-zero delta (repeated delta or constant second difference): prev_time only advanced for accepted measurements',
+ 'C13-r2': 'a zero reading or a zero-delta probe only among the 100 warm-up probes: the warm-up `continue` moved above the NoTimer / CoarseTimer checks',
+ 'C14-r2': 'about one seed in 5000 (e.g. Hc128Rng::seed_from_u64(1206)): plain `+` instead of wrapping_add in the HC-128 table expansion overflows in dev builds',
+ 'C15-r2': 'two time values differing only in bit 63 (raw 64-bit readings folded by timer_stats / test_timer): LFSR fold loop bound 1..65 -> 1..64',
+ 'C16-r2': 'next_u32(); clone(); clone.next_u32(): Clone copies data_half_used, the clone hands out the half its original still holds',
+ 'C17-r2': 'JitterRng after at least one collection: Debug prints mem_prev_index (derived from timer ^ pool)',
+ 'C18-r2': 'XorShiftRng::fill_bytes(&mut []) : `(dest.len() - 1) / 4` panics with overflow checks on, wraps to a harmless no-op with them off',
+ 'C19-r2': 'another JitterRng instance completes test_timer() before this one is constructed: new_with_timer takes its rounds from a process-wide atomic',
 }
 def main():
     outcomes = json.load(open(os.path.join(ROOT, 'seeded', 'outcomes.json'))) if os.path.exists(os.path.join(ROOT, 'seeded', 'outcomes.json')) else {}
@@ -30,8 +49,9 @@ def main():
             continue
         conf = open(os.path.join(p, 'confirm.txt')).read().strip().splitlines() if os.path.exists(os.path.join(p, 'confirm.txt')) else []
         meta = dict(
-            property=d,
-            breaks='property %s of /verif/properties.jsonl' % d,
+            property=d.split('-')[0],
+            round=2 if d.endswith('-r2') else 1,
+            breaks='property %s of /verif/properties.jsonl' % d.split('-')[0],
             needs_to_manifest=NEEDS.get(d, ''),
             files=dict(patch='patch.diff', demonstration='demo_test.rs', author_notes='NOTES.md'),
             origin='independent sub-agent working in a scratch worktree of /repo with only the property text; never committed to /repo',
